@@ -772,3 +772,143 @@ func sameExpr(a, b ssa.Value, depth int) bool {
 	}
 	return false
 }
+
+// Forward looks through a local struct used as a parameter object: a load of field i of a local
+// struct variable yields the value stored into that field, when every store to it (in the function)
+// stores the same value or there is exactly one; whole-struct copies between locals and struct values
+// returned by calls are followed (after normalisation helper calls are inlined, so result structs are
+// locals too). Anything else is returned unchanged. Used by identity rules ("the key passed to SetExpiry
+// is the key the key-function reported") so that grouping values in a struct does not hide them.
+func Forward(v ssa.Value) ssa.Value { return forward(v, 0) }
+
+func forward(v ssa.Value, d int) ssa.Value {
+	if d > 8 || v == nil {
+		return v
+	}
+	switch x := v.(type) {
+	case *ssa.UnOp:
+		if x.Op != token.MUL {
+			return v
+		}
+		switch a := x.X.(type) {
+		case *ssa.FieldAddr:
+			if r := fieldOf(a.X, a.Field, d+1); r != nil {
+				return forward(r, d+1)
+			}
+		case *ssa.Alloc:
+			// scalar local with a single store
+			if s := singleStoreTo(a); s != nil {
+				return forward(s, d+1)
+			}
+		}
+	case *ssa.Field:
+		if r := fieldOfValue(x.X, x.Field, d+1); r != nil {
+			return forward(r, d+1)
+		}
+	case *ssa.Phi:
+		var first ssa.Value
+		for _, e := range x.Edges {
+			f := forward(e, d+1)
+			if first == nil {
+				first = f
+			} else if f != first {
+				return v
+			}
+		}
+		if first != nil {
+			return first
+		}
+	}
+	return v
+}
+
+func singleStoreTo(al *ssa.Alloc) ssa.Value {
+	var val ssa.Value
+	n := 0
+	if al.Referrers() == nil {
+		return nil
+	}
+	for _, r := range *al.Referrers() {
+		switch st := r.(type) {
+		case *ssa.Store:
+			if st.Addr == ssa.Value(al) {
+				n++
+				val = st.Val
+			}
+		case *ssa.FieldAddr, *ssa.IndexAddr:
+			return nil // partially written elsewhere
+		}
+	}
+	if n == 1 {
+		return val
+	}
+	return nil
+}
+
+// fieldOf: the value of field idx of the struct at address base (a local Alloc).
+func fieldOf(base ssa.Value, idx int, d int) ssa.Value {
+	al, ok := base.(*ssa.Alloc)
+	if !ok || d > 8 || al.Referrers() == nil {
+		return nil
+	}
+	var fieldStores []ssa.Value
+	var whole []ssa.Value
+	for _, r := range *al.Referrers() {
+		switch x := r.(type) {
+		case *ssa.FieldAddr:
+			if x.Field != idx || x.Referrers() == nil {
+				continue
+			}
+			for _, r2 := range *x.Referrers() {
+				if st, ok := r2.(*ssa.Store); ok && st.Addr == ssa.Value(x) {
+					fieldStores = append(fieldStores, st.Val)
+				}
+			}
+		case *ssa.Store:
+			if x.Addr == ssa.Value(al) {
+				whole = append(whole, x.Val)
+			}
+		}
+	}
+	if len(fieldStores) == 1 && len(whole) == 0 {
+		return fieldStores[0]
+	}
+	if len(fieldStores) == 0 && len(whole) == 1 {
+		return fieldOfValue(whole[0], idx, d+1)
+	}
+	if len(fieldStores) == 1 && len(whole) == 1 {
+		// zero-value initialisation followed by the field assignment
+		if c, ok := whole[0].(*ssa.Const); ok && c.Value == nil {
+			return fieldStores[0]
+		}
+	}
+	return nil
+}
+
+// fieldOfValue: field idx of a struct VALUE (a load of a local, a phi-free copy, ...).
+func fieldOfValue(v ssa.Value, idx int, d int) ssa.Value {
+	if d > 8 {
+		return nil
+	}
+	switch x := v.(type) {
+	case *ssa.UnOp:
+		if x.Op == token.MUL {
+			return fieldOf(x.X, idx, d+1)
+		}
+	case *ssa.Phi:
+		var first ssa.Value
+		for _, e := range x.Edges {
+			f := fieldOfValue(e, idx, d+1)
+			if f == nil {
+				return nil
+			}
+			if first == nil {
+				first = f
+			} else if f != first {
+				return nil
+			}
+		}
+		return first
+	}
+	return nil
+}
